@@ -13,6 +13,9 @@ range (which `C07_no_wrap` shows every reachable state is).
 namespace Hive.Seq.Go
 open Hive.Seq Hive.Gen.C07Ast
 
+-- the symbolic-execution proofs pass one uniform simp set to every branch; keep the build log for real problems
+set_option linter.unusedSimpArgs false
+
 /-- Every construct of the four functions is one the interpreter understands. -/
 theorem C07_generated_supported :
     (okL fn_NewSequence && okL fn_Sequence_Next && okL fn_Sequence_Release && okL fn_Sequence_update) = true := by
